@@ -562,8 +562,17 @@ func (g *Gen) expr(t *GT, env *scope, d int) string {
 				}
 			}
 			if len(names) > 0 {
-				n := names[g.r.Intn(len(names))]
-				return `$"` + g.r.Pick("v=", "", "x ") + "{" + n + "}" + g.r.Pick("", "!", " end") + `"`
+				// one to four holes; a variable may occur several times in one literal
+				var sb strings.Builder
+				sb.WriteString(`$"` + g.r.Pick("v=", "", "x "))
+				for h, nh := 0, g.r.Range(1, 4); h < nh; h++ {
+					if h > 0 {
+						sb.WriteString(g.r.Pick("+", ", ", " ", "="))
+					}
+					sb.WriteString("{" + names[g.r.Intn(len(names))] + "}")
+				}
+				sb.WriteString(g.r.Pick("", "!", " end") + `"`)
+				return sb.String()
 			}
 		case 3:
 			return `strings.Concat ", " ` + g.atom(tSlice(tString), env, d-1)
